@@ -309,10 +309,31 @@ let cmd_prologue () =
     done
   with End_of_file -> ()
 
+(* ---------------- emitter stacks: "L1 L2 ; V0 L3" -> receivers of each v_k, "1,2|1,2,3" *)
+let cmd_emstack () =
+  try
+    while true do
+      let line = input_line stdin in
+      let defs = List.map String.trim (String.split_on_char ';' line) in
+      let vars = ref [] in
+      List.iter (fun d ->
+        let args = List.map (fun tok ->
+          let n () = int_of_string (String.sub tok 1 (String.length tok - 1)) in
+          match tok.[0] with
+          | 'L' -> VOne (ALeaf (nat_of_int (n ())))
+          | 'N' -> VOne ANop
+          | _ -> List.nth (List.rev !vars) (n ())) (List.filter (fun t -> t <> "E") (split_ws d)) in
+        vars := mk_stack args :: !vars) defs;
+      print_endline (String.concat "|" (List.map (fun v ->
+        String.concat "," (List.map (fun i -> string_of_int (int_of_nat i)) (deliver v))) (List.rev !vars)))
+    done
+  with End_of_file -> ()
+
 let () =
   match Array.to_list Sys.argv with
   | _ :: "flowobs" :: _ -> cmd_flowobs ()
   | _ :: "prologue" :: _ -> cmd_prologue ()
+  | _ :: "emstack" :: _ -> cmd_emstack ()
   | _ :: "validate" :: _ -> cmd_validate ()
   | _ :: "sched-replay" :: _ -> cmd_sched_replay ()
   | _ :: "invert" :: _ -> cmd_invert ()
